@@ -971,5 +971,8 @@ BENIGN = [
            "    return array.ndim >= 2 and array.shape[-2] == array.shape[-1]"),
     Benign('pow-guard-is-vector-alone', MA, "        elif not self.ndim == 2:", "        elif is_vector(self):"),
     Benign('division-by-item-through-local', MA, "                return super_DIV(other.item())", "                divisor = other.item()\n                return super_DIV(divisor)"),
+    Benign('triple-error-built-at-raise-site-from-module-constant', EXPR,
+           "                if is_vector(value):\n                    if double_vector_mult_has_occured:\n                        raise triple_vector_mult_error\n                    elif is_vector(result):\n                        double_vector_mult_has_occured = True\n",
+           "                if is_vector(value) and double_vector_mult_has_occured:\n                    raise CalcError(' '.join(['Multiplying three or more vectors is ambiguous.', 'Please place parentheses.']))\n                if is_vector(value) and is_vector(result):\n                    double_vector_mult_has_occured = True\n"),
     Benign('mul-collapse-without-isinstance', MA, "                if isinstance(result, MathArray) and is_numberlike_array(result):", "                if is_numberlike_array(result):"),
 ]
